@@ -317,6 +317,10 @@ func (prog Progress) focusedTransform(n datamodel.Node, na datamodel.NodeAssembl
 		if replaced {
 			return ma.Finish()
 		}
+		if end && n2 == nil {
+			// The target does not exist and the TransformFn asked for "remove this": nothing to do.
+			return ma.Finish()
+		}
 		// If we didn't find the target yet: append it.
 		//  If we're at the end, always do this;
 		//  if we're in the middle, only do this if createParents mode is enabled.
@@ -356,6 +360,21 @@ func (prog Progress) focusedTransform(n datamodel.Node, na datamodel.NodeAssembl
 			}
 			if ti == i {
 				prog.Path = prog.Path.AppendSegment(seg)
+				if p2.Len() == 0 {
+					// The element itself is the target: ask now, because "remove this" (nil) must not assemble a value at all.
+					n2, err := fn(prog, v)
+					if err != nil {
+						return err
+					}
+					replaced = true
+					if n2 == nil {
+						continue
+					}
+					if err := la.AssembleValue().AssignNode(n2); err != nil {
+						return err
+					}
+					continue
+				}
 				if err := prog.focusedTransform(v, la.AssembleValue(), p2, fn, createParents); err != nil {
 					return err
 				}
